@@ -1295,3 +1295,62 @@ async fn serve_inner(net: Shared, id: usize, addr: String, s: &mut DuplexStream)
         }
     }
 }
+
+/// Direct-connection reference: what a PostgreSQL session (this automaton)
+/// answers to the given frontend messages, with no pooler in between.
+/// Returns the backend messages in order.
+pub fn reference_replies(msgs: &[Msg], application_name: &str) -> Vec<Msg> {
+    let net: Shared = Arc::new(Mutex::new(Net::new()));
+    {
+        let mut n = net.lock();
+        n.servers.insert("ref:0".into(), ServerSpec::new("ref:0", "ref"));
+        n.conns.push(ConnInfo {
+            id: 0,
+            server: "ref:0".into(),
+            label: "ref".into(),
+            pid: 1,
+            key: 1,
+            open: true,
+            is_cancel: false,
+            snap: Default::default(),
+            gated_waiting: 0,
+            permits: Arc::new(tokio::sync::Semaphore::new(0)),
+            msgs_in: 0,
+            user: String::new(),
+            database: String::new(),
+            application_name: application_name.to_string(),
+            kill: Arc::new(tokio::sync::Notify::new()),
+        });
+    }
+    let mut sess = Session {
+        net: net.clone(),
+        id: 0,
+        addr: "ref:0".into(),
+        snap: Snap { status: b'I', gucs: default_gucs(), role: "none".into(), ..Default::default() },
+        txn_snapshot: None,
+        txn_session_sets: BTreeMap::new(),
+        txn_role_before: "none".into(),
+        reported: BTreeMap::new(),
+        out: vec![],
+        copy_rows: 0,
+        copy_fail_at_done: false,
+        copy_rest: VecDeque::new(),
+        portals: BTreeMap::new(),
+    };
+    sess.snap.gucs.insert("application_name".into(), application_name.to_string());
+    // mark current values as already reported (startup did that)
+    for k in REPORTED {
+        let cur = sess.snap.gucs.get(*k).cloned().unwrap_or_default();
+        sess.reported.insert(k.to_string(), cur);
+    }
+    let mut out = Vec::new();
+    for m in msgs {
+        match sess.handle(m) {
+            Flow::Continue => {}
+            _ => break,
+        }
+    }
+    let (ms, _, _) = wire::split_stream(&sess.out);
+    out.extend(ms);
+    out
+}
